@@ -4,15 +4,16 @@
 
     SCOPE of the closed-form theorems ([res_scope r origin dates], per resolution):
     - day / week units: quantity >= 1; no bound on dates or origin.
-    - month / quarter / half-year / year units (quantity q months, 1 <= q <= 786): the origin is a
-      month end of 1970-01-01 .. 2100-12-31 with month_id origin + q <= 1571, and every date involved
-      (period starts for period_resolution, evaluation dates for eval_resolution) lies in
-      month_end (q-1) < d <= month_end (1571-q)  (month ids 0..1571 = 1970-01 .. 2100-12).  The
-      calendar facts are kernel computations over all 1572 month ids and all 47 847 ordinals of that
-      range [C08_calendar_1970_2100, C08_month_grid]; the bound is part of each statement.
-      TIE for month arithmetic: the source calls the float-based add_months; its agreement with
-      Calendar.addm on month-aligned dates of 1970-2100 is theorem
-      C12_add_months_agrees_with_Z_calendar of the C12 check (offsets up to +-120 / +-600 months).
+    - month / quarter / half-year / year units (quantity q >= 1 months): the origin is a month end of
+      ANY year >= 1 (ordinal >= 1, is_month_end), and every date involved (period starts for
+      period_resolution, evaluation dates for eval_resolution) lies after the first q months of year 1:
+      month_end (MINID + q - 1) < d, MINID = -23628 = month id of 0001-01.  No upper bound, no bound on q.
+      The calendar facts are the unbounded axiom-free theorems of wp-basis's Proofs/CalendarP.v
+      [C08_calendar, C08_month_grid, C08_month_end_increasing].
+      TIE for month arithmetic: Calendar.addm equals the source's float add_months only where the C12
+      bridge theorem C12_add_months_agrees_with_Z_calendar says so (month-aligned dates, results in
+      1970-2100; known finding F10 before 1970).  Outside that range these theorems are statements about
+      the Z-model, and the per-run correspondence (implementation = walk model = agg_ref) is the tie.
       Period ends are unconstrained; the triangle need not be month-aligned for these theorems.
 
     MAIN THEOREMS
@@ -39,7 +40,7 @@
       are kept: C08_align, C08_eval_grid, C08_align_days, C08_period_windows_universal_step, ... *)
 From Coq Require Import ZArith List Bool.
 From Bermuda Require Import Model.Base Lib.Calendar Model.Summarize Model.Basis Model.Aggregate
-  Proofs.SummarizeLib Proofs.Summarize Proofs.Summarize2 Proofs.Aggregate Proofs.AggregateGrid
+  Proofs.SummarizeLib Proofs.Summarize Proofs.Summarize2 Proofs.CalendarP Proofs.Aggregate Proofs.AggregateGrid
   Proofs.AggregateInst Proofs.AggregateRef.
 Import ListNotations.
 Local Open Scope Z_scope.
@@ -83,7 +84,7 @@ Section C08.
       map_result (window_cell wavg rules nl prem) (groupby coord_eqb coord3 relabelled) = Ok out.
   Proof. exact (aggregate_period_spec wavg rules nl). Qed.
 
-  (* ---- phase 2: closed form inside the scope (day units: always; month units: 1970-2100) ---- *)
+  (* ---- phase 2: closed form inside the scope (day units: always; month units: any year >= 1) ---- *)
   Theorem C08_aggregate_is_closed_form : forall a t,
     (is_incremental t = false -> cum_scope a t) ->
     (forall cum, is_incremental t = true -> to_cumulative std_desc t = Ok cum -> cum_scope a cum) ->
@@ -219,22 +220,21 @@ Proof. exact window_of_spec. Qed.
 Theorem C08_day_grid : forall q origin klo khi, 1 <= q -> klo <= 0 -> 0 < khi ->
   grid_ok (RDay q) origin (day_G origin q) klo khi (day_kidx origin q).
 Proof. exact day_grid_ok. Qed.
-Theorem C08_month_grid_ok : forall origin q, month_origin_ok origin q ->
-  grid_ok (RMonth q) origin (month_G origin q) (month_klo origin q) (month_khi origin q) (month_kidx origin q).
+Theorem C08_month_grid_ok : forall origin q, month_origin_ok origin q -> forall khi, 0 < khi ->
+  grid_ok (RMonth q) origin (month_G origin q) (month_klo origin q) khi (month_kidx origin q).
 Proof. exact month_grid_ok. Qed.
-Theorem C08_calendar_1970_2100 : forall d, LO <= d <= HI ->
-  0 <= month_id d <= 1571 /\ month_start (month_id d) <= d <= month_end (month_id d) /\
-  (is_month_end d = true -> d = month_end (month_id d)).
-Proof. exact ord_facts. Qed.
+(* every date of year >= 1 lies in the month its month id names (wp-basis, Proofs/CalendarP.v) *)
+Theorem C08_calendar : forall d, 1 <= d -> month_start (month_id d) <= d <= month_end (month_id d).
+Proof. exact CalendarP.month_bracket. Qed.
 
-(* month arithmetic, month ids 0..1571 (1970-01 .. 2100-12) *)
-Theorem C08_month_grid : forall i q, 0 <= i <= 1571 -> 1 <= q ->
+(* month arithmetic for every month of year >= 1 (month id >= MINID = -23628) *)
+Theorem C08_month_grid : forall i q, MINID <= i ->
   delta (RMonth q) false (month_end i) = month_end (i + q) /\
   delta (RMonth q) true (month_end i) = month_end (i - q) /\
   month_end i + 1 = month_start (i + 1).
-Proof. exact month_window. Qed.
-Theorem C08_month_end_increasing : forall i j, 0 <= i -> j <= 1572 -> i < j -> month_end i < month_end j.
-Proof. exact month_end_increasing. Qed.
+Proof. exact month_window_unbounded. Qed.
+Theorem C08_month_end_increasing : forall i j, i < j -> month_end i < month_end j.
+Proof. exact me_lt. Qed.
 
 Print Assumptions C08_align.
 Print Assumptions C08_align_days.
@@ -249,7 +249,7 @@ Print Assumptions C08_period_windows.
 Print Assumptions C08_no_fuel_exhaustion.
 Print Assumptions C08_eval_grid_filter.
 Print Assumptions C08_month_grid_ok.
-Print Assumptions C08_calendar_1970_2100.
+Print Assumptions C08_calendar.
 
 (* non-vacuity: four quarterly cells of one slice aggregate to one yearly cell per evaluation date *)
 Definition k_paid : str := [112;97;105;100;95;108;111;115;115].
@@ -270,6 +270,6 @@ Example C08_scope_nonvacuous :
   cum_scope (mkArgs (Some (standardize 1 UYear)) (Some (standardize 1 UQuarter)) 730119 730119 true) ex_tri.
 Proof.
   split; intros r E; inversion E; subst; cbn [res_scope standardize];
-    (split; [repeat split; vm_compute; congruence|]); (split; [vm_compute; congruence|]);
-    intros d Hd; cbn in Hd; repeat (destruct Hd as [<-|Hd]; [vm_compute; split; congruence|]); destruct Hd.
+    (split; [repeat split; vm_compute; congruence|]);
+    intros d Hd; cbn in Hd; repeat (destruct Hd as [<-|Hd]; [vm_compute; reflexivity|]); destruct Hd.
 Qed.
